@@ -2,6 +2,7 @@ import CookModel.Lemmas.TextLaws
 import CookModel.Lemmas.LexLaws
 import CookModel.Lemmas.SimBlocks
 import CookModel.Lemmas.SimEvents
+import CookModel.Lemmas.TrailingSpace
 /-
   C17  Line endings, comments and blank space do not change the recipe.
 
@@ -49,6 +50,49 @@ theorem C17_newline_is_space (off off' : Nat) (xs ys : List Tok) (n n' : Tok)
   have e1 : vis n = [' '] := by simp [vis, hn, h1]
   have e2 : vis n' = [' '] := by simp [vis, hn', h2]
   simp [e1, e2]
+
+/-- **Trailing white space at the end of a run is invisible after trimming.**  Appending a
+    whitespace token (any Unicode white space: blanks, tabs, U+00A0 …) to a token run changes
+    neither `Text::text_trimmed()` nor the outer `trim()` nor `is_text_empty()` of the assembled
+    text.  The runs this applies to end at the end of a line: a metadata value (`consume_rest` of a
+    `>>` line), a section name before the closing `=`/end of line, a component name or note, the
+    last line of a step or text block; so `>> k: v` and `>> k: v   ` give the same value, and a name
+    that was blank stays blank (same warnings). -/
+theorem C17_trailing_space_trimmed (cs : CharSpec) (off : Nat) (xs : List Tok) (w : Tok) (hw : w.kind = .ws)
+    (hu : w.text.all cs.uws = true) :
+    (buildText off (xs ++ [w])).trimmed cs = (buildText off xs).trimmed cs ∧
+    (buildText off (xs ++ [w])).outerTrimmed cs = (buildText off xs).outerTrimmed cs ∧
+    (buildText off (xs ++ [w])).isTextEmpty cs = (buildText off xs).isTextEmpty cs :=
+  ⟨(tsp_buildText_snoc_ws cs off xs w hw hu).2.1, (tsp_buildText_snoc_ws cs off xs w hw hu).1,
+   (tsp_buildText_snoc_ws cs off xs w hw hu).2.2⟩
+
+/-- the lexer merges added blanks into an existing trailing whitespace token: making the last
+    whitespace token of a run longer (or different) changes nothing after trimming either -/
+theorem C17_trailing_space_widen (cs : CharSpec) (off : Nat) (xs : List Tok) (w w' : Tok)
+    (hw : w.kind = .ws) (hw' : w'.kind = .ws) (hu : w.text.all cs.uws = true) (hu' : w'.text.all cs.uws = true) :
+    (buildText off (xs ++ [w'])).trimmed cs = (buildText off (xs ++ [w])).trimmed cs ∧
+    (buildText off (xs ++ [w'])).isTextEmpty cs = (buildText off (xs ++ [w])).isTextEmpty cs := by
+  obtain ⟨a1, _, a3⟩ := C17_trailing_space_trimmed cs off xs w hw hu
+  obtain ⟨b1, _, b3⟩ := C17_trailing_space_trimmed cs off xs w' hw' hu'
+  exact ⟨b1.trans a1.symm, b3.trans a3.symm⟩
+
+/-- **Blanks in front of a line break inside a step.**  In a multi-line text run, ASCII blanks at
+    the end of a line (a whitespace token of blanks directly before a newline token) do not change
+    `text_trimmed()`: the line break reads as one blank and `text_trimmed` collapses runs of
+    blanks.  Offsets of all later tokens shift, hence `off`/`off'` and the statement for arbitrary
+    token positions.  Needs only that the plain blank is white space for `trim`.  (Tabs are NOT
+    collapsed by `text_trimmed`, so the statement is about U+0020 only, as in the code.) -/
+theorem C17_trailing_space_before_newline (cs : CharSpec) (hsp : cs.uws ' ' = true) (off off' : Nat)
+    (xs ys : List Tok) (w nl : Tok) (hw : w.kind = .ws) (hS : ∀ c ∈ w.text, c = ' ')
+    (hn : nl.kind = .newline) (hne : nl.text ≠ []) :
+    (buildText off' (xs ++ [w, nl] ++ ys)).trimmed cs = (buildText off (xs ++ [nl] ++ ys)).trimmed cs :=
+  tsp_buildText_ws_before_newline cs hsp off off' xs ys w nl hw hS hn hne
+
+/-- the character-level law behind it: `text_trimmed` of `a␣␣b` and of `a␣b` agree, wherever the
+    blanks are (also at the ends, where `trim` removes them) -/
+theorem C17_text_trimmed_collapses (ws : Char → Bool) (hsp : ws ' ' = true) (A S B : List Char)
+    (hS : ∀ c ∈ S, c = ' ') : trimmedOf ws (A ++ S ++ ' ' :: B) = trimmedOf ws (A ++ ' ' :: B) :=
+  tsp_trimmedOf_blanks ws hsp A S B hS
 
 /-- The CRLF law of the lexer (`crlf_kinds`).  `crlf s` replaces every `'\n'` of `s` that is not
     already preceded by `'\r'` with `"\r\n"`.  For every character table in which CR and LF are
@@ -204,5 +248,13 @@ example : (parseFrontmatter toyCharSpec ">> k: v\n\n= s =\n\nline one\nline two\
   decide
 example : (parseFrontmatter toyCharSpec (crlf ">> k: v\n\n= s =\n\nline one\nline two\n\n> note\n".toList)).isNone = true := by
   decide
+
+/-! non-vacuity for the trailing-space laws: "a  \nb" against "a\nb", and a run ending in blanks -/
+example : (buildText 0 [⟨.word, ['a'], 0⟩, ⟨.ws, [' ', ' '], 1⟩, ⟨.newline, ['\n'], 3⟩, ⟨.word, ['b'], 4⟩]).trimmed toyCharSpec
+    = ['a', ' ', 'b'] := by decide
+example : (buildText 0 [⟨.word, ['a'], 0⟩, ⟨.newline, ['\n'], 1⟩, ⟨.word, ['b'], 2⟩]).trimmed toyCharSpec
+    = ['a', ' ', 'b'] := by decide
+example : (buildText 0 [⟨.word, ['a'], 0⟩, ⟨.ws, [' ', '\t'], 1⟩]).trimmed toyCharSpec = ['a'] := by decide
+example : toyCharSpec.uws ' ' = true := by decide
 
 end Cook
